@@ -140,9 +140,9 @@ at `T2 = T1 + 2^31 + 1` with a runnable fibre (`V = T1`) the code computes +2147
     interval capped at the 50 ms poll -/
 theorem mainloop_sleep_spec (V T2 : Int) (h : -2147483648 ≤ V - T2 ∧ V - T2 < 2147483648) :
     posixSleep (w32 V) (w32 T2) = if T2 < V then some (min (V - T2) 50000).toNat else none := by
-  unfold posixSleep cyclecmp32 Librfn.Gen.Util.cyclecmp32
+  unfold posixSleep cyclecmp32
   simp only
-  rw [sub_toInt_window V T2 h]
+  rw [Librfn.Sched.L.cyclecmp32_tie, sub_toInt_window V T2 h]
   by_cases h1 : V - T2 < 50000
   · rw [if_pos h1]
     by_cases h2 : T2 < V
